@@ -10,6 +10,7 @@
   state, hence the same verdict and statistics. `lane_count_iff`: the lane-count / grouping rule.
 -/
 import FastPasta.Spec.AlpideEnc
+import FastPasta.Proofs.AlpStatsSrcTie
 import FastPasta.Model.Cdp
 import FastPasta.Proofs.AlpideSrcTie
 namespace FastPasta
@@ -314,6 +315,15 @@ theorem frame_verdict_exact (cfg : AlpideCfg) (barrel : Barrel) (fs : LaneFrames
     (checkAlpideFrame cfg barrel fs).newFatal = fatalLanesOf (verdicts cfg barrel fs) := by
   have := go_spec cfg barrel fs [] 0 [] {} [] []
   simpa [checkAlpideFrame] using this
+
+
+/-- tie by translation (`Spec/AlpStatsSrcGen.lean`, from `stats_collector/its_stats/alpide_stats.rs` on this run): the readout-flag
+    counters the property speaks about are the source's own — what `log_readout_flags` does with a chip-trailer byte is
+    `AlpideStats.logTrailer` (trailers seen; busy violation 0xB8, data overrun 0xBC, transmission in fatal 0xBE as exact values,
+    otherwise the three flag bits), and the collector's `sum` is `AlpideStats.add`; both below the `u32` wrap -/
+theorem readout_flags_src (a : SrcAlpStats.AlpideStats) (b : Nat) (hs : SrcTie.StatsSmall (SrcTie.statsOf a)) :
+    SrcTie.statsOf (a.log_readout_flags b).2 = (SrcTie.statsOf a).logTrailer b :=
+  SrcTie.log_flags_eq a b hs
 
 end C13
 end FastPasta
